@@ -1,6 +1,6 @@
 (* TypedProofs.v — lemmas for C12 (totality) and C16 (faithful decoding) about TypedModel. *)
 From Coq Require Import ZArith ZifyBool ZifyN ZifyNat Permutation.
-From MPD Require Import Bytes Tables BuilderModel FrameModel FrameProofs TagModel TagProofs TypedModel.
+From MPD Require Import Bytes Tables BuilderModel FrameModel FrameProofs TagModel TagProofs TypedModel TypedSpec.
 Open Scope N_scope.
 
 (* ====================================================================================== *)
@@ -611,4 +611,523 @@ Proof.
   { unfold p_binary, p_cut, p_bind, p_ret in E4. dm E4. congruence. }
   all: try discriminate.
   eapply key_value_key. exact H.
+Qed.
+
+(* ====================================================================================== *)
+(* D. faithful decoding (C16)                                                               *)
+(* ====================================================================================== *)
+
+(* ---------- enumerations: the MPD spellings decode to the right variant, nothing else does ---------- *)
+
+Definition playstate_ident (x : playstate) : bytes :=
+  match x with SPlay => b "Playing" | SPause => b "Paused" | SStop => b "Stopped" end.
+Definition single_ident (x : singlemode) : bytes :=
+  match x with SingleOff => b "Disabled" | SingleOn => b "Enabled" | SingleOneshot => b "Oneshot" end.
+Definition rgmode_ident (x : rgmode) : bytes :=
+  match x with RgOff => b "Off" | RgTrack => b "Track" | RgAlbum => b "Album" | RgAuto => b "Auto" end.
+
+Lemma playstate_rt x f : from_playstate (playstate_wire x) f = TOk (playstate_ident x).
+Proof. destruct x; vm_compute; reflexivity. Qed.
+Lemma single_rt x f : from_enum single_spellings (single_wire x) f = TOk (single_ident x).
+Proof. destruct x; vm_compute; reflexivity. Qed.
+Lemma rgmode_rt x f : from_replaygain (rgmode_wire x) f = TOk (rgmode_ident x).
+Proof. destruct x; vm_compute; reflexivity. Qed.
+Lemma bool_rt x f : from_bool (bool_wire x) f = TOk x.
+Proof. destruct x; vm_compute; reflexivity. Qed.
+
+Lemma lookup_spelling_in tbl v i : lookup_spelling tbl v = Some i -> In (v, i) tbl.
+Proof.
+  induction tbl as [|[p j] r IH]; simpl; [discriminate|]. destruct (beq v p) eqn:E.
+  - intros H; inversion H; subst. apply beq_eq in E. subst. left; reflexivity.
+  - intros H. right. auto.
+Qed.
+
+(* domain: a decoded enum value was spelled exactly as the protocol spells it *)
+Lemma playstate_domain v f i : from_playstate v f = TOk i -> exists x, v = playstate_wire x /\ i = playstate_ident x.
+Proof.
+  unfold from_playstate, from_enum. destruct (lookup_spelling playstate_spellings v) as [j|] eqn:E; [|discriminate].
+  intros H; inversion H; subst. apply lookup_spelling_in in E.
+  repeat (destruct E as [E|E]; [inversion E; subst; first [exists SPlay; split; reflexivity | exists SPause; split; reflexivity | exists SStop; split; reflexivity]|]).
+  destruct E.
+Qed.
+Lemma single_domain v f i : from_enum single_spellings v f = TOk i -> exists x, v = single_wire x /\ i = single_ident x.
+Proof.
+  unfold from_enum. destruct (lookup_spelling single_spellings v) as [j|] eqn:E; [|discriminate].
+  intros H; inversion H; subst. apply lookup_spelling_in in E.
+  repeat (destruct E as [E|E]; [inversion E; subst; first [exists SingleOff; split; reflexivity | exists SingleOn; split; reflexivity | exists SingleOneshot; split; reflexivity]|]).
+  destruct E.
+Qed.
+Lemma rgmode_domain v f i : from_replaygain v f = TOk i -> exists x, v = rgmode_wire x /\ i = rgmode_ident x.
+Proof.
+  unfold from_replaygain, from_enum. destruct (lookup_spelling replaygain_spellings v) as [j|] eqn:E; [|discriminate].
+  intros H; inversion H; subst. apply lookup_spelling_in in E.
+  repeat (destruct E as [E|E]; [inversion E; subst; first [exists RgOff; split; reflexivity | exists RgTrack; split; reflexivity | exists RgAlbum; split; reflexivity | exists RgAuto; split; reflexivity]|]).
+  destruct E.
+Qed.
+Lemma bool_domain v f x : from_bool v f = TOk x -> v = bool_wire x.
+Proof.
+  unfold from_bool, from_enum. destruct (lookup_spelling bool_spellings v) as [j|] eqn:E; [|discriminate].
+  simpl. intros H; inversion H; subst. apply lookup_spelling_in in E.
+  repeat (destruct E as [E|E]; [inversion E; subst; reflexivity|]). destruct E.
+Qed.
+
+Lemma from_uint_rt bits n f : n < 2 ^ bits -> from_uint bits (render_dec n) f = TOk n.
+Proof. intros H. unfold from_uint. rewrite parse_uint_render. destruct (n <? 2 ^ bits) eqn:E; [reflexivity|lia]. Qed.
+
+(* domain: integers — an accepted value fits the width; the canonical numeral of a value that does
+   not fit is an error *)
+Lemma from_uint_domain bits v f n : from_uint bits v f = TOk n -> n < 2 ^ bits.
+Proof. unfold from_uint. destruct (parse_uint bits v) eqn:E; [|discriminate]. intros H; inversion H; subst. eapply parse_uint_sound; eauto. Qed.
+Lemma from_uint_overflow bits n f : 2 ^ bits <= n -> from_uint bits (render_dec n) f = TErr (KInvalid f).
+Proof. intros H. unfold from_uint. rewrite parse_uint_render. destruct (n <? 2 ^ bits) eqn:E; [lia|reflexivity]. Qed.
+
+(* ---------- durations ---------- *)
+
+Lemma split_sign_digit d r : is_digit d = true -> split_sign (d :: r) = (false, d :: r).
+Proof.
+  unfold split_sign, is_digit, in_range. intros H.
+  destruct (d =? 43) eqn:E1; [lia|]. destruct (d =? 45) eqn:E2; [lia|]. reflexivity.
+Qed.
+
+Lemma not_word_digit d r w : is_digit d = true -> (forall c, In c (firstn 1 w) -> 97 <= c) -> w <> [] ->
+  eq_ignore_case (d :: r) w = false.
+Proof.
+  intros H Hw Hn. destruct w as [|c w']; [congruence|]. unfold eq_ignore_case. cbn [map beq].
+  assert (97 <= c) by (apply Hw; left; reflexivity).
+  assert (to_lower d = d) by (unfold to_lower, is_upper, is_digit, in_range in *; destruct ((65 <=? d) && (d <=? 90)) eqn:E; lia).
+  assert (97 <= to_lower c) by (unfold to_lower, is_upper, in_range; destruct ((65 <=? c) && (c <=? 90)); lia).
+  rewrite H1. destruct (d =? to_lower c) eqn:E; [|reflexivity]. unfold is_digit, in_range in H. lia.
+Qed.
+
+Lemma parse_f64_digits ds fp :
+  ds <> [] -> forallb is_digit ds = true -> forallb is_digit fp = true ->
+  parse_f64 (ds ++ match fp with [] => [] | _ => 46 :: fp end) = Some (FNum false ds fp None).
+Proof.
+  intros Hn Hd Hf. destruct ds as [|d r]; [congruence|].
+  assert (Dd : is_digit d = true) by (simpl in Hd; apply andb_true_iff in Hd; tauto).
+  unfold parse_f64. cbn [app]. rewrite split_sign_digit by exact Dd.
+  rewrite !not_word_digit; try exact Dd; try discriminate;
+    try (intros c [<-|[]]; vm_compute; discriminate).
+  cbn [orb]. unfold parse_number.
+  change (d :: r ++ match fp with [] => [] | _ => 46 :: fp end) with ((d :: r) ++ match fp with [] => [] | _ => 46 :: fp end).
+  destruct fp as [|f0 fr].
+  - rewrite span_digits_app by (exact Hd || exact I). reflexivity.
+  - rewrite span_digits_app; [|exact Hd|reflexivity].
+    rewrite <- (app_nil_r (f0 :: fr)) at 1. rewrite span_digits_app by (exact Hf || exact I).
+    reflexivity.
+Qed.
+
+Lemma pad_right_nil_value : dec_value (pad_right 9 []) = 0.
+Proof. vm_compute. reflexivity. Qed.
+
+(* whole seconds (xfade, uptime, playtime, db_playtime): exact below 2^53 *)
+Lemma parse_duration_secs n f : n < 2 ^ 53 -> parse_duration (render_dec n) f = TOk (Some (n * 10 ^ 9)).
+Proof.
+  intros H. destruct (render_dec_spec n) as (H1 & H2 & H3). unfold parse_duration.
+  pose proof (parse_f64_digits (render_dec n) [] H1 H2 eq_refl) as P. rewrite app_nil_r in P. rewrite P.
+  unfold classify. rewrite app_nil_r, H3. destruct (n =? 0) eqn:E; [apply N.eqb_eq in E; subst; reflexivity|].
+  unfold exact_nanos. cbn [length Nat.leb andb]. rewrite H3. destruct (n <? 2 ^ 22) eqn:E2.
+  - rewrite pad_right_nil_value. f_equal. f_equal. lia.
+  - change (dec_value []) with 0. change (0 =? 0) with true. cbn [andb].
+    destruct (n <? 2 ^ 53) eqn:E3; [reflexivity|lia].
+Qed.
+
+Lemma pad3_spec m : m < 1000 -> forallb is_digit (pad3 m) = true /\ dec_value (pad3 m) = m /\ dec_value (pad_right 9 (pad3 m)) = m * 10 ^ 6.
+Proof.
+  intros H. unfold pad3.
+  pose proof (N.div_mod m 10 ltac:(lia)). pose proof (N.mod_lt m 10 ltac:(lia)).
+  pose proof (N.div_mod (m / 10) 10 ltac:(lia)). pose proof (N.mod_lt (m / 10) 10 ltac:(lia)).
+  assert (m / 100 = m / 10 / 10) by (rewrite N.div_div by lia; reflexivity).
+  assert (m / 100 < 10) by (apply N.div_lt_upper_bound; lia).
+  set (x := m / 100) in *. set (y := (m / 10) mod 10) in *. set (z := m mod 10) in *.
+  repeat split.
+  - cbn [forallb]. unfold is_digit, in_range. lia.
+  - unfold dec_value. cbn [dec_acc]. unfold digit_val. lia.
+  - cbn [pad_right]. unfold dec_value. cbn [dec_acc]. unfold digit_val. lia.
+Qed.
+
+(* seconds.milliseconds (elapsed, duration): exact below 2^22 s *)
+Lemma parse_duration_ms ms f : ms < 2 ^ 22 * 1000 -> parse_duration (ms_wire ms) f = TOk (Some (ms * 10 ^ 6)).
+Proof.
+  intros H.
+  pose proof (N.div_mod ms 1000 ltac:(lia)) as DM. pose proof (N.mod_lt ms 1000 ltac:(lia)) as ML.
+  assert (Q : ms / 1000 < 2 ^ 22) by (apply N.div_lt_upper_bound; lia).
+  unfold parse_duration, ms_wire.
+  remember (ms / 1000) as q eqn:Eq. remember (ms mod 1000) as m eqn:Em.
+  destruct (render_dec_spec q) as (H1 & H2 & H3). destruct (pad3_spec m ML) as (P1 & P2 & P3).
+  pose proof (parse_f64_digits (render_dec q) (pad3 m) H1 H2 P1) as P. unfold pad3 at 1 in P. fold (pad3 m) in P.
+  change ([46] ++ pad3 m) with (46 :: pad3 m). rewrite P.
+  unfold classify. rewrite dec_value_app, H3, P2. change (N.of_nat (length (pad3 m))) with 3.
+  destruct (q * 10 ^ 3 + m =? 0) eqn:E.
+  - apply N.eqb_eq in E. assert (Z0 : ms = 0) by lia. rewrite Z0. reflexivity.
+  - unfold exact_nanos. change (Nat.leb (length (pad3 m)) 9) with true. rewrite H3. cbn [andb].
+    destruct (q <? 2 ^ 22) eqn:E2; [|lia]. rewrite P3. f_equal. f_equal. lia.
+Qed.
+
+(* ---------- lookups in an encoded reply ---------- *)
+
+Fixpoint look (l : list (bytes * option bytes)) (k : bytes) : option bytes :=
+  match l with
+  | [] => None
+  | (k', o) :: r => if beq k' k then match o with Some v => Some v | None => look r k end else look r k
+  end.
+
+Lemma s_find_enc l k : s_find (enc_fields l) k = look l k.
+Proof.
+  induction l as [|[k' o] r IH]; simpl; [reflexivity|]. destruct o as [v|]; simpl.
+  - destruct (beq k' k); [reflexivity|exact IH].
+  - rewrite IH. destruct (beq k' k); reflexivity.
+Qed.
+
+(* with pairwise distinct keys the first table entry decides *)
+Fixpoint look1 (l : list (bytes * option bytes)) (k : bytes) : option bytes :=
+  match l with
+  | [] => None
+  | (k', o) :: r => if beq k' k then o else look1 r k
+  end.
+
+Lemma look_absent l k : ~ In k (map fst l) -> look l k = None.
+Proof.
+  induction l as [|[k' o] r IH]; simpl; intros H; [reflexivity|].
+  destruct (beq k' k) eqn:E; [apply beq_eq in E; subst; tauto|]. apply IH. tauto.
+Qed.
+
+Lemma look_look1 l k : NoDup (map fst l) -> look l k = look1 l k.
+Proof.
+  induction l as [|[k' o] r IH]; simpl; intros H; [reflexivity|]. inversion H; subst.
+  destruct (beq k' k) eqn:E; [|auto]. apply beq_eq in E. subst.
+  destruct o; [reflexivity|]. apply look_absent. assumption.
+Qed.
+
+Lemma enc_fields_keys l : NoDup (map fst l) -> NoDup (map fst (enc_fields l)).
+Proof.
+  induction l as [|[k o] r IH]; simpl; intros H; [constructor|]. inversion H; subst.
+  destruct o as [v|]; simpl; [|auto]. constructor; [|auto].
+  intros Hin. apply H2. clear -Hin. induction r as [|[k' o'] r IH]; simpl in *; [contradiction|].
+  destruct o'; simpl in *; [destruct Hin; auto|auto].
+Qed.
+
+Lemma runL_ext {A} (p : prog A) look1 look2 : (forall k, look1 k = look2 k) -> runL p look1 = runL p look2.
+Proof. intros H. induction p as [r|k c IH]; simpl; [reflexivity|]. rewrite H. apply IH. Qed.
+
+(* one step of a decoder against a lookup function *)
+Lemma step_val {A B} k (cv : conv A) (f : A -> prog B) lk v a :
+  lk k = Some v -> cv v k = TOk a -> runL (bind (value k cv) f) lk = runL (f a) lk.
+Proof. intros H1 H2. rewrite runL_bind. simpl. rewrite H1. simpl. rewrite H2. reflexivity. Qed.
+
+Lemma step_opt {A B X} k (cv : conv A) (f : option A -> prog B) lk (o : option X) (rnd : X -> bytes) (g : X -> A) :
+  lk k = option_map rnd o -> (forall x, o = Some x -> cv (rnd x) k = TOk (g x)) ->
+  runL (bind (optional_value k cv) f) lk = runL (f (option_map g o)) lk.
+Proof.
+  intros H1 H2. rewrite runL_bind. simpl. rewrite H1. destruct o as [x|]; simpl; [|reflexivity].
+  rewrite (H2 x eq_refl). reflexivity.
+Qed.
+
+Lemma step_raw {B} k (f : option bytes -> prog B) lk o :
+  lk k = o -> runL (bind (get_raw k) f) lk = runL (f o) lk.
+Proof. intros H. rewrite runL_bind. simpl. rewrite H. reflexivity. Qed.
+
+Lemma step_song {B} pk ik (f : option (N * N) -> prog B) lk (o : option (N * N)) :
+  lk pk = num (option_map fst o) -> lk ik = num (option_map snd o) -> pair_lt o (2 ^ 64) ->
+  runL (bind (song_identifier pk ik) f) lk = runL (f o) lk.
+Proof.
+  intros H1 H2 W. rewrite runL_bind. unfold song_identifier. rewrite runL_bind. simpl. rewrite H1.
+  destruct o as [[p i]|]; simpl; [|reflexivity].
+  destruct (W (p, i) eq_refl) as [Wp Wi]. simpl in Wp, Wi.
+  rewrite from_uint_rt by exact Wp. simpl. rewrite H2. simpl. rewrite from_uint_rt by exact Wi. reflexivity.
+Qed.
+
+(* ---------- status ---------- *)
+
+Definition ms_dur (ms : N) : dur := Some (ms * 10 ^ 6).
+
+(* the value a faithful decoder returns for an abstract status reply.  Only the defaults are not
+   the identity: a missing volume reads 0, a missing xfade 0 s (MPD omits xfade when it is 0). *)
+Definition expected_status (s : status) : m_status :=
+  mkStatus (or_default 0 (s_volume s)) (playstate_ident (s_state s)) (s_repeat s) (s_random s) (s_consume s)
+           (single_ident (s_single s)) (s_playlist s) (s_playlistlength s) (s_song s) (s_nextsong s)
+           (option_map ms_dur (s_elapsed s)) (option_map ms_dur (s_duration s)) (s_bitrate s)
+           (or_default (Some 0) (option_map (fun x => Some (x * 10 ^ 9)) (s_xfade s)))
+           (s_updating_db s) (s_error s) (s_partition s).
+
+Lemma status_wire_keys s : NoDup (map fst (status_wire s)).
+Proof. apply nodupb_sound. vm_compute. reflexivity. Qed.
+
+Theorem status_roundtrip s fs :
+  wf_status s -> Permutation (enc_status s) fs -> exec status_prog fs = TOk (expected_status s).
+Proof.
+  intros (Wvol & Wpl & Wpll & Wxf & Wsong & Wnext & Wel & Wdu & Wbr & Wup) P.
+  rewrite status_is_lookup.
+  rewrite (runL_ext _ _ (look1 (status_wire s))).
+  2:{ intros k. rewrite (s_find_perm (enc_status s) fs k); [|apply enc_fields_keys; apply status_wire_keys|exact P].
+      unfold enc_status. rewrite s_find_enc. apply look_look1. apply status_wire_keys. }
+  unfold status_prog.
+  (* single *)
+  rewrite runL_bind. cbn [p_single runL]. change (look1 (status_wire s) (b "single")) with (Some (single_wire (s_single s))).
+  cbn [runL]. rewrite single_rt. cbn [tbind].
+  (* duration / Time *)
+  rewrite runL_bind. cbn [p_duration runL].
+  change (look1 (status_wire s) (b "duration")) with (option_map ms_wire (s_duration s)).
+  change (look1 (status_wire s) (b "Time")) with (@None bytes).
+  assert (D : runL match option_map ms_wire (s_duration s) with
+                   | Some v => Ret (tmap Some (parse_duration v (b "duration")))
+                   | None => ret None
+                   end (look1 (status_wire s)) = TOk (option_map ms_dur (s_duration s))).
+  { destruct (s_duration s) as [d|] eqn:E; simpl; [|reflexivity]. rewrite parse_duration_ms by (apply Wdu; reflexivity). reflexivity. }
+  match goal with |- tbind ?X _ = _ => replace X with (TOk (option_map ms_dur (s_duration s))) end.
+  2:{ symmetry. destruct (s_duration s) as [d|] eqn:E; simpl in *; exact D. }
+  cbn [tbind].
+  rewrite (step_opt _ _ _ _ (s_volume s) render_dec (fun x => x)); [|reflexivity|intros x Hx; apply from_uint_rt; apply Wvol; exact Hx].
+  rewrite (step_val _ _ _ _ (playstate_wire (s_state s)) (playstate_ident (s_state s))); [|reflexivity|apply playstate_rt].
+  rewrite (step_val _ _ _ _ (bool_wire (s_repeat s)) (s_repeat s)); [|reflexivity|apply bool_rt].
+  rewrite (step_val _ _ _ _ (bool_wire (s_random s)) (s_random s)); [|reflexivity|apply bool_rt].
+  rewrite (step_val _ _ _ _ (bool_wire (s_consume s)) (s_consume s)); [|reflexivity|apply bool_rt].
+  rewrite (step_opt _ _ _ _ (Some (s_playlistlength s)) render_dec (fun x => x)); [|reflexivity|intros x Hx; inversion Hx; subst; apply from_uint_rt; exact Wpll].
+  rewrite (step_opt _ _ _ _ (Some (s_playlist s)) render_dec (fun x => x)); [|reflexivity|intros x Hx; inversion Hx; subst; apply from_uint_rt; exact Wpl].
+  rewrite (step_song _ _ _ _ (s_song s)); [|reflexivity|reflexivity|exact Wsong].
+  rewrite (step_song _ _ _ _ (s_nextsong s)); [|reflexivity|reflexivity|exact Wnext].
+  rewrite (step_opt _ _ _ _ (s_elapsed s) ms_wire ms_dur); [|reflexivity|intros x Hx; apply parse_duration_ms; apply Wel; exact Hx].
+  rewrite (step_opt _ _ _ _ (s_bitrate s) render_dec (fun x => x)); [|reflexivity|intros x Hx; apply from_uint_rt; apply Wbr; exact Hx].
+  rewrite (step_opt _ _ _ _ (s_xfade s) render_dec (fun x => Some (x * 10 ^ 9))); [|reflexivity|intros x Hx; apply parse_duration_secs; specialize (Wxf x Hx); lia].
+  rewrite (step_opt _ _ _ _ (s_updating_db s) render_dec (fun x => x)); [|reflexivity|intros x Hx; apply from_uint_rt; apply Wup; exact Hx].
+  rewrite (step_raw _ _ _ (s_error s)) by reflexivity.
+  rewrite (step_raw _ _ _ (s_partition s)) by reflexivity.
+  cbn [ret runL]. unfold expected_status. f_equal. f_equal; try (destruct (s_volume s); reflexivity);
+    try (destruct (s_bitrate s); reflexivity); try (destruct (s_updating_db s); reflexivity).
+Qed.
+
+(* ---------- stats, count, ids, replay gain ---------- *)
+
+Definition secs_dur (n : N) : dur := Some (n * 10 ^ 9).
+
+Definition expected_stats (s : stats) : m_stats :=
+  mkStats (t_artists s) (t_albums s) (t_songs s) (secs_dur (t_uptime s)) (secs_dur (t_playtime s))
+          (secs_dur (t_db_playtime s)) (t_db_update s).
+
+Lemma enc_stats_keys s : NoDup (map fst (enc_stats s)).
+Proof. apply nodupb_sound. vm_compute. reflexivity. Qed.
+
+Theorem stats_roundtrip s fs :
+  wf_stats s -> Permutation (enc_stats s) fs -> exec stats_prog fs = TOk (expected_stats s).
+Proof.
+  intros (W1 & W2 & W3 & W4 & W5 & W6 & W7) P. rewrite stats_is_lookup.
+  rewrite (runL_ext _ _ (s_find (enc_stats s))).
+  2:{ intros k. apply s_find_perm; [apply enc_stats_keys|exact P]. }
+  unfold stats_prog.
+  rewrite (step_val _ _ _ _ (render_dec (t_artists s)) (t_artists s)); [|reflexivity|apply from_uint_rt; exact W1].
+  rewrite (step_val _ _ _ _ (render_dec (t_albums s)) (t_albums s)); [|reflexivity|apply from_uint_rt; exact W2].
+  rewrite (step_val _ _ _ _ (render_dec (t_songs s)) (t_songs s)); [|reflexivity|apply from_uint_rt; exact W3].
+  rewrite (step_val _ _ _ _ (render_dec (t_uptime s)) (secs_dur (t_uptime s))); [|reflexivity|apply parse_duration_secs; exact W5].
+  rewrite (step_val _ _ _ _ (render_dec (t_playtime s)) (secs_dur (t_playtime s))); [|reflexivity|apply parse_duration_secs; exact W7].
+  rewrite (step_val _ _ _ _ (render_dec (t_db_playtime s)) (secs_dur (t_db_playtime s))); [|reflexivity|apply parse_duration_secs; exact W6].
+  rewrite (step_val _ _ _ _ (render_dec (t_db_update s)) (t_db_update s)); [|reflexivity|apply from_uint_rt; exact W4].
+  reflexivity.
+Qed.
+
+Theorem count_roundtrip c fs :
+  wf_count c -> Permutation (enc_count c) fs -> exec count_prog fs = TOk (c_songs c, secs_dur (c_playtime c)).
+Proof.
+  intros (W1 & W2) P. rewrite count_is_lookup.
+  rewrite (runL_ext _ _ (s_find (enc_count c))).
+  2:{ intros k. apply s_find_perm; [apply nodupb_sound; vm_compute; reflexivity|exact P]. }
+  unfold count_prog.
+  rewrite (step_val _ _ _ _ (render_dec (c_songs c)) (c_songs c)); [|reflexivity|apply from_uint_rt; exact W1].
+  rewrite (step_val _ _ _ _ (render_dec (c_playtime c)) (secs_dur (c_playtime c))); [|reflexivity|apply parse_duration_secs; exact W2].
+  reflexivity.
+Qed.
+
+Lemma value_single {A} k (cv : conv A) v a : cv v k = TOk a -> exec (value k cv) [(k, v)] = TOk a.
+Proof. intros H. rewrite value_is_lookup. simpl. rewrite beq_refl. exact H. Qed.
+
+Theorem update_roundtrip job : job < 2 ^ 64 -> exec update_prog (enc_update job) = TOk job.
+Proof. intros H. apply value_single. apply from_uint_rt. exact H. Qed.
+Theorem addid_roundtrip id : id < 2 ^ 64 -> exec addid_prog (enc_addid id) = TOk id.
+Proof. intros H. apply value_single. apply from_uint_rt. exact H. Qed.
+Theorem replay_gain_roundtrip m : exec replaygain_prog (enc_replay_gain m) = TOk (rgmode_ident m).
+Proof. apply value_single. apply rgmode_rt. Qed.
+
+(* ---------- soundness for ARBITRARY frames: a decoded status is determined, field by field, by the
+   first occurrence of the field's key; absent exactly when omitted; out-of-domain => no value ---------- *)
+
+Definition field_opt {A} (lk : bytes -> option bytes) (k : bytes) (cv : conv A) (o : option A) : Prop :=
+  match lk k with
+  | None => o = None
+  | Some v => exists a, cv v k = TOk a /\ o = Some a
+  end.
+Definition field_req {A} (lk : bytes -> option bytes) (k : bytes) (cv : conv A) (a : A) : Prop :=
+  exists v, lk k = Some v /\ cv v k = TOk a.
+Definition field_pair (lk : bytes -> option bytes) (pk ik : bytes) (o : option (N * N)) : Prop :=
+  match lk pk with
+  | None => o = None
+  | Some vp => exists p i, from_uint usize_bits vp pk = TOk p /\ field_req lk ik (from_uint 64) i /\ o = Some (p, i)
+  end.
+
+Lemma bind_inv {A B} (p : prog A) (f : A -> prog B) lk r :
+  runL (bind p f) lk = TOk r -> exists a, runL p lk = TOk a /\ runL (f a) lk = TOk r.
+Proof. rewrite runL_bind. destruct (runL p lk) as [a|e|]; simpl; [|discriminate|discriminate]. intros H. exists a. auto. Qed.
+
+Lemma value_inv {A} k (cv : conv A) lk a : runL (value k cv) lk = TOk a -> field_req lk k cv a.
+Proof. simpl. unfold field_req. destruct (lk k) as [v|]; simpl; [|discriminate]. intros H. exists v. auto. Qed.
+
+Lemma optional_inv {A} k (cv : conv A) lk o : runL (optional_value k cv) lk = TOk o -> field_opt lk k cv o.
+Proof.
+  simpl. unfold field_opt. destruct (lk k) as [v|]; simpl.
+  - destruct (cv v k) as [a|e|]; simpl; try discriminate. intros H; inversion H. exists a. auto.
+  - intros H; inversion H. reflexivity.
+Qed.
+
+Lemma song_identifier_inv pk ik lk o : runL (song_identifier pk ik) lk = TOk o -> field_pair lk pk ik o.
+Proof.
+  unfold song_identifier. intros H. apply bind_inv in H as (p & H1 & H2). apply optional_inv in H1.
+  unfold field_opt in H1. unfold field_pair. destruct (lk pk) as [vp|].
+  - destruct H1 as (a & C & ->). apply bind_inv in H2 as (i & H3 & H4). apply value_inv in H3.
+    simpl in H4. inversion H4; subst. exists a, i. auto.
+  - subst p. simpl in H2. inversion H2. reflexivity.
+Qed.
+
+Record status_facts (lk : bytes -> option bytes) (r : m_status) : Prop := {
+  sf_single : match lk (b "single") with
+              | None => st_single r = b "Disabled"
+              | Some v => from_enum single_spellings v (b "single") = TOk (st_single r)
+              end;
+  sf_duration : match lk (b "duration") with
+                | Some v => exists d, parse_duration v (b "duration") = TOk d /\ st_duration r = Some d
+                | None => match lk (b "Time") with
+                          | None => st_duration r = None
+                          | Some t => exists x y d, split_once 58 t = Some (x, y) /\ parse_duration y (b "Time") = TOk d /\ st_duration r = Some d
+                          end
+                end;
+  sf_volume : exists o, field_opt lk (b "volume") (from_uint 8) o /\ st_volume r = or_default 0 o;
+  sf_state : field_req lk (b "state") from_playstate (st_state r);
+  sf_repeat : field_req lk (b "repeat") from_bool (st_repeat r);
+  sf_random : field_req lk (b "random") from_bool (st_random r);
+  sf_consume : field_req lk (b "consume") from_bool (st_consume r);
+  sf_playlistlength : exists o, field_opt lk (b "playlistlength") (from_uint usize_bits) o /\ st_playlist_length r = or_default 0 o;
+  sf_playlist : exists o, field_opt lk (b "playlist") (from_uint 32) o /\ st_playlist_version r = or_default 0 o;
+  sf_song : field_pair lk (b "song") (b "songid") (st_current_song r);
+  sf_nextsong : field_pair lk (b "nextsong") (b "nextsongid") (st_next_song r);
+  sf_elapsed : field_opt lk (b "elapsed") parse_duration (st_elapsed r);
+  sf_bitrate : field_opt lk (b "bitrate") (from_uint 64) (st_bitrate r);
+  sf_xfade : exists o, field_opt lk (b "xfade") parse_duration o /\ st_crossfade r = or_default (Some 0) o;
+  sf_updating_db : field_opt lk (b "updating_db") (from_uint 64) (st_update_job r);
+  sf_error : st_error r = lk (b "error");
+  sf_partition : st_partition r = lk (b "partition") }.
+
+Theorem status_sound_lookup lk r : runL status_prog lk = TOk r -> status_facts lk r.
+Proof.
+  unfold status_prog. intros H.
+  apply bind_inv in H as (single & Hsingle & H).
+  apply bind_inv in H as (duration & Hduration & H).
+  apply bind_inv in H as (volume & Hvolume & H). apply optional_inv in Hvolume.
+  apply bind_inv in H as (state & Hstate & H). apply value_inv in Hstate.
+  apply bind_inv in H as (repeat & Hrepeat & H). apply value_inv in Hrepeat.
+  apply bind_inv in H as (random & Hrandom & H). apply value_inv in Hrandom.
+  apply bind_inv in H as (consume & Hconsume & H). apply value_inv in Hconsume.
+  apply bind_inv in H as (plen & Hplen & H). apply optional_inv in Hplen.
+  apply bind_inv in H as (pver & Hpver & H). apply optional_inv in Hpver.
+  apply bind_inv in H as (cur & Hcur & H). apply song_identifier_inv in Hcur.
+  apply bind_inv in H as (nxt & Hnxt & H). apply song_identifier_inv in Hnxt.
+  apply bind_inv in H as (elapsed & Helapsed & H). apply optional_inv in Helapsed.
+  apply bind_inv in H as (bitrate & Hbitrate & H). apply optional_inv in Hbitrate.
+  apply bind_inv in H as (xfade & Hxfade & H). apply optional_inv in Hxfade.
+  apply bind_inv in H as (upd & Hupd & H). apply optional_inv in Hupd.
+  apply bind_inv in H as (error & Herror & H). simpl in Herror. inversion Herror; subst error.
+  apply bind_inv in H as (partition & Hpartition & H). simpl in Hpartition. inversion Hpartition; subst partition.
+  simpl in H. inversion H; subst r. clear H Herror Hpartition.
+  constructor; cbn [st_single st_duration st_volume st_state st_repeat st_random st_consume st_playlist_length
+                    st_playlist_version st_current_song st_next_song st_elapsed st_bitrate st_crossfade st_update_job
+                    st_error st_partition]; try assumption; try reflexivity; try (eexists; split; [eassumption|reflexivity]).
+  - cbn [p_single runL] in Hsingle. destruct (lk (b "single")) as [v|]; [exact Hsingle|]. cbn [runL ret] in Hsingle. inversion Hsingle. reflexivity.
+  - cbn [p_duration runL] in Hduration. destruct (lk (b "duration")) as [v|].
+    + cbn [runL] in Hduration. destruct (parse_duration v (b "duration")) as [d|e|]; cbn [tmap] in Hduration; try discriminate.
+      inversion Hduration. exists d. auto.
+    + cbn [runL] in Hduration. destruct (lk (b "Time")) as [t|]; [|cbn [runL ret] in Hduration; inversion Hduration; reflexivity].
+      destruct (split_once 58 t) as [[x y]|]; [|cbn [runL] in Hduration; discriminate].
+      cbn [runL] in Hduration. destruct (parse_duration y (b "Time")) as [d|e|] eqn:PD; cbn [tmap] in Hduration; try discriminate.
+      inversion Hduration. exists x, y, d. auto.
+Qed.
+
+Theorem status_sound fs r : exec status_prog fs = TOk r -> status_facts (s_find fs) r.
+Proof. rewrite status_is_lookup. apply status_sound_lookup. Qed.
+
+(* optional fields are absent exactly when the server omitted them *)
+Theorem status_absent_iff fs r : exec status_prog fs = TOk r ->
+  let omitted k := ~ In k (map fst fs) in
+  (st_elapsed r = None <-> omitted (b "elapsed")) /\
+  (st_bitrate r = None <-> omitted (b "bitrate")) /\
+  (st_update_job r = None <-> omitted (b "updating_db")) /\
+  (st_error r = None <-> omitted (b "error")) /\
+  (st_partition r = None <-> omitted (b "partition")) /\
+  (st_current_song r = None <-> omitted (b "song")) /\
+  (st_next_song r = None <-> omitted (b "nextsong")) /\
+  (st_duration r = None <-> omitted (b "duration") /\ omitted (b "Time")).
+Proof.
+  intros H omitted. apply status_sound in H. destruct H.
+  assert (O : forall {A} k (cv : conv A) o, field_opt (s_find fs) k cv o -> (o = None <-> omitted k)).
+  { intros A k cv o F. unfold omitted. rewrite <- s_find_none. unfold field_opt in F.
+    destruct (s_find fs k); [destruct F as (a & _ & ->); split; discriminate|subst; tauto]. }
+  assert (Pr : forall pk ik o, field_pair (s_find fs) pk ik o -> (o = None <-> omitted pk)).
+  { intros pk ik o F. unfold omitted. rewrite <- s_find_none. unfold field_pair in F.
+    destruct (s_find fs pk); [destruct F as (p & i & _ & _ & ->); split; discriminate|subst; tauto]. }
+  repeat split; try (eapply O; eassumption); try (eapply Pr; eassumption);
+    unfold omitted in *; rewrite <- ?s_find_none in *.
+  - rewrite sf_error0. tauto.
+  - rewrite sf_error0. tauto.
+  - rewrite sf_partition0. tauto.
+  - rewrite sf_partition0. tauto.
+  - match goal with H : st_duration r = None |- _ => rename H into E end.
+    destruct (s_find fs (b "duration")); [destruct sf_duration0 as (d & _ & E2); congruence|reflexivity].
+  - match goal with H : st_duration r = None |- _ => rename H into E end.
+    destruct (s_find fs (b "duration")); [destruct sf_duration0 as (d & _ & E2); congruence|].
+    destruct (s_find fs (b "Time")); [destruct sf_duration0 as (x & y & d & _ & _ & E2); congruence|reflexivity].
+  - intros [E1 E2]. rewrite E1, E2 in sf_duration0. exact sf_duration0.
+Qed.
+
+(* a field whose value is outside its domain never yields a value: the conversion reports an error *)
+Theorem status_domain fs k :
+  In k [b "volume"; b "playlistlength"; b "playlist"; b "song"; b "songid"; b "nextsong"; b "nextsongid";
+        b "bitrate"; b "updating_db"; b "state"; b "repeat"; b "random"; b "consume"; b "single";
+        b "elapsed"; b "xfade"; b "duration"] ->
+  forall v, s_find fs k = Some v ->
+  (In k [b "volume"] -> parse_uint 8 v = None) ->
+  (In k [b "playlist"] -> parse_uint 32 v = None) ->
+  (In k [b "playlistlength"; b "song"; b "songid"; b "nextsong"; b "nextsongid"; b "bitrate"; b "updating_db"] -> parse_uint 64 v = None) ->
+  (In k [b "state"] -> lookup_spelling playstate_spellings v = None) ->
+  (In k [b "repeat"; b "random"; b "consume"] -> lookup_spelling bool_spellings v = None) ->
+  (In k [b "single"] -> lookup_spelling single_spellings v = None) ->
+  (In k [b "elapsed"; b "xfade"; b "duration"] -> forall d, parse_duration v k <> TOk d) ->
+  (k = b "songid" -> s_find fs (b "song") <> None) -> (k = b "nextsongid" -> s_find fs (b "nextsong") <> None) ->
+  exists e, exec status_prog fs = TErr e.
+Proof.
+  intros Hk v Hv D8 D32 D64 Dst Dbool Dsingle Ddur Hsid Hnid.
+  destruct (exec status_prog fs) as [r|e|] eqn:E; [exfalso|exists e; reflexivity|exfalso; revert E; apply exec_np; apply np_status].
+  apply status_sound in E. destruct E.
+  assert (U : forall bits f n, from_uint bits v f = TOk n -> parse_uint bits v = None -> False).
+  { intros bits f n. unfold from_uint. destruct (parse_uint bits v); [discriminate|discriminate]. }
+  assert (En : forall tbl f i, from_enum tbl v f = TOk i -> lookup_spelling tbl v = None -> False).
+  { intros tbl f i. unfold from_enum. destruct (lookup_spelling tbl v); discriminate. }
+  cbn [In] in Hk.
+  repeat (destruct Hk as [<-|Hk]); [..|destruct Hk].
+  - destruct sf_volume0 as (o & F & _). unfold field_opt in F. rewrite Hv in F. destruct F as (a & F & _). eapply U; [exact F|apply D8; left; reflexivity].
+  - destruct sf_playlistlength0 as (o & F & _). unfold field_opt in F. rewrite Hv in F. destruct F as (a & F & _). eapply U; [exact F|apply D64; cbn; tauto].
+  - destruct sf_playlist0 as (o & F & _). unfold field_opt in F. rewrite Hv in F. destruct F as (a & F & _). eapply U; [exact F|apply D32; left; reflexivity].
+  - unfold field_pair in sf_song0. rewrite Hv in sf_song0. destruct sf_song0 as (p & i & F & _). eapply U; [exact F|apply D64; cbn; tauto].
+  - unfold field_pair in sf_song0. destruct (s_find fs (b "song")) as [vp|] eqn:Es; [|apply Hsid; reflexivity].
+    destruct sf_song0 as (p & i & _ & (v' & Hv' & F) & _). rewrite Hv in Hv'. inversion Hv'; subst v'. eapply U; [exact F|apply D64; cbn; tauto].
+  - unfold field_pair in sf_nextsong0. rewrite Hv in sf_nextsong0. destruct sf_nextsong0 as (p & i & F & _). eapply U; [exact F|apply D64; cbn; tauto].
+  - unfold field_pair in sf_nextsong0. destruct (s_find fs (b "nextsong")) as [vp|] eqn:Es; [|apply Hnid; reflexivity].
+    destruct sf_nextsong0 as (p & i & _ & (v' & Hv' & F) & _). rewrite Hv in Hv'. inversion Hv'; subst v'. eapply U; [exact F|apply D64; cbn; tauto].
+  - unfold field_opt in sf_bitrate0. rewrite Hv in sf_bitrate0. destruct sf_bitrate0 as (a & F & _). eapply U; [exact F|apply D64; cbn; tauto].
+  - unfold field_opt in sf_updating_db0. rewrite Hv in sf_updating_db0. destruct sf_updating_db0 as (a & F & _). eapply U; [exact F|apply D64; cbn; tauto].
+  - destruct sf_state0 as (v' & Hv' & F). rewrite Hv in Hv'. inversion Hv'; subst v'. eapply En; [exact F|apply Dst; left; reflexivity].
+  - destruct sf_repeat0 as (v' & Hv' & F). rewrite Hv in Hv'. inversion Hv'; subst v'. unfold from_bool in F.
+    destruct (from_enum bool_spellings v (b "repeat")) eqn:G; simpl in F; try discriminate. eapply En; [exact G|apply Dbool; cbn; tauto].
+  - destruct sf_random0 as (v' & Hv' & F). rewrite Hv in Hv'. inversion Hv'; subst v'. unfold from_bool in F.
+    destruct (from_enum bool_spellings v (b "random")) eqn:G; simpl in F; try discriminate. eapply En; [exact G|apply Dbool; cbn; tauto].
+  - destruct sf_consume0 as (v' & Hv' & F). rewrite Hv in Hv'. inversion Hv'; subst v'. unfold from_bool in F.
+    destruct (from_enum bool_spellings v (b "consume")) eqn:G; simpl in F; try discriminate. eapply En; [exact G|apply Dbool; cbn; tauto].
+  - rewrite Hv in sf_single0. eapply En; [exact sf_single0|apply Dsingle; left; reflexivity].
+  - unfold field_opt in sf_elapsed0. rewrite Hv in sf_elapsed0. destruct sf_elapsed0 as (a & F & _). eapply Ddur; [cbn; tauto|exact F].
+  - destruct sf_xfade0 as (o & F & _). unfold field_opt in F. rewrite Hv in F. destruct F as (a & F & _). eapply Ddur; [cbn; tauto|exact F].
+  - rewrite Hv in sf_duration0. destruct sf_duration0 as (d & F & _). eapply Ddur; [cbn; tauto|exact F].
 Qed.
